@@ -49,10 +49,16 @@ func TestPropAggregator(t *testing.T) {
 			e := gen.GenFilter(t, "ef", 25)
 			f.Prefix, f.NotPrefix, f.Sub, f.NotSub, f.NotRegex = e.Prefix, e.NotPrefix, e.Sub, e.NotSub, e.NotRegex
 		}
+		// output keys of every length from a few bytes to ~150 (whatever is built per key -- buffers, prefixes -- meets
+		// every size on the way)
+		outFmt := tpl.fmt
+		if rapid.Bool().Draw(t, "padkey") {
+			outFmt += "." + strings.Repeat("k", rapid.IntRange(1, 140).Draw(t, "keypad"))
+		}
 		rule := aggref.Rule{
 			Fun:      rapid.SampledFrom(aggref.Funs).Draw(t, "fun"),
 			Filter:   f,
-			OutFmt:   tpl.fmt,
+			OutFmt:   outFmt,
 			Interval: int64(rapid.SampledFrom([]int{1, 2, 5, 10, 60}).Draw(t, "interval")),
 			Wait:     int64(rapid.SampledFrom([]int{0, 1, 5, 10, 20, 120}).Draw(t, "wait")),
 		}
